@@ -1555,6 +1555,12 @@ func scenReaddRemoved(e *engineA) error {
 	}
 	fs := e.others(l)
 	x := fs[e.rng.Intn(len(fs))]
+	if e.rng.Intn(3) != 0 {
+		// the leader removes itself: it certainly holds the entry that
+		// removes it (a follower only does if the entry was on its way when
+		// the leader stopped talking to it)
+		x = l
+	}
 	act := raft.Remove
 	if e.rng.Intn(3) == 0 {
 		act = raft.ForceRemove
@@ -1564,11 +1570,15 @@ func scenReaddRemoved(e *engineA) error {
 	// node can reach it before the leader stops talking to it
 	e.startClients(4, map[string]int{"update": 1})
 	e.sleepHB(1, 2)
-	if err := e.cl.changeConfig(l, fmt.Sprintf("%v(%d)", act, x.nid), func(c *raft.Config) error { return c.SetAction(x.nid, act) }); err != nil {
+	if err := e.cl.changeConfig(l, fmt.Sprintf("%v(%d)", act, x.nid), func(c *raft.Config) error { return c.SetAction(x.nid, act) }); err != nil && x != l {
 		return fmt.Errorf("remove: %v", err)
 	}
 	e.waitFor(60, func() bool {
-		info, ok := l.info(false)
+		cur := e.cl.leader()
+		if cur == nil || cur == x {
+			return false
+		}
+		info, ok := cur.info(false)
 		_, in := info.Configs.Latest.Nodes[x.nid]
 		return ok && !in && info.Configs.IsCommitted()
 	})
@@ -1580,6 +1590,9 @@ func scenReaddRemoved(e *engineA) error {
 	e.sleepHB(1, 6)
 	e.stopLoad()
 	e.stopClients = make(chan struct{})
+	if l = e.cl.waitLeader(100 * e.hb()); l == nil {
+		return fmt.Errorf("no leader after the removal")
+	}
 	promote := e.rng.Intn(2) == 0
 	if err := e.cl.changeConfig(l, fmt.Sprintf("add(%d,promote=%v) again", x.nid, promote), func(c *raft.Config) error {
 		return c.AddNonvoter(x.nid, e.cl.addrOf(x.nid), promote)
